@@ -31,6 +31,13 @@ fn gen_case(rng: &mut Rng, seed: u64) -> Case {
     let limit = *rng.pick(&[0u32, 1, 100, 1200, 1200, 65535]);
     let mut params = ParamCfg::default();
     params.datagram = limit;
+    // one scenario in three: the two endpoints advertise different limits (each sender is bound by its PEER's)
+    if rng.chance(1, 3) {
+        let other = *rng.pick(&[0u32, 64, 100, 300, 1200]);
+        if other != limit {
+            params.datagram_server = Some(other);
+        }
+    }
     params.mtu = *rng.pick(&[1200usize, 1500]);
     let lat = Duration::from_millis(*rng.pick(&[1u64, 10]));
     let mut f = FaultProfile { latency: lat, ..Default::default() };
@@ -45,6 +52,11 @@ fn gen_case(rng: &mut Rng, seed: u64) -> Case {
             1 => (limit as usize).saturating_sub(1).max(8),
             2 => (limit as usize).max(8),
             3 => limit as usize + 1 + 8,
+            4 if params.datagram_server.is_some() => {
+                // between the two limits, and just around the server's
+                let o = params.datagram_server.unwrap() as usize;
+                *rng.pick(&[o.saturating_sub(1).max(8), o.max(8), o + 9, (o.min(limit as usize) + o.max(limit as usize)) / 2])
+            }
             _ => rng.range(8, 1100) as usize,
         };
         datagrams.push((rng.bool(), size));
@@ -73,13 +85,37 @@ fn judge(rep: &mut Report, case: &Case, out: &scenario::Outcome) {
     }
     let s = &out.shared;
     // refuse-or-accept: accepted ⇒ 1 + size <= limit; refused ⇒ it did not fit (or the extension is off)
+    // the limit that binds a sender is the one its PEER advertised
+    let limit_by_client = case.limit;
+    let limit_by_server = case.spec.params.datagram_server.unwrap_or(case.limit);
+    let peer_limit = |from_client: bool| if from_client { limit_by_server } else { limit_by_client };
+    if limit_by_client != limit_by_server {
+        rep.count("scenarios_with_different_limits_per_side");
+    }
     for (from_client, id, size) in &s.dgram_accepted {
         rep.count("datagrams_accepted");
-        if case.limit == 0 || 1 + *size as u64 > case.limit as u64 {
-            rep.violation("C19.l2.send.accepted-oversize".to_string(), format!("datagram {id} of {size} bytes accepted ({}) although the peer's max_datagram_frame_size is {}", if *from_client { "client" } else { "server" }, case.limit), rj.clone());
+        let l = peer_limit(*from_client);
+        if l == 0 || 1 + *size as u64 > l as u64 {
+            rep.violation("C19.l2.send.accepted-oversize".to_string(), format!("datagram {id} of {size} bytes accepted ({}) although the peer's max_datagram_frame_size is {l} (own: {})", if *from_client { "client" } else { "server" }, peer_limit(!*from_client)), rj.clone());
         }
     }
-    let n_spec_fit = case.spec.datagrams.iter().filter(|(_, size)| case.limit != 0 && 1 + (*size).max(8) as u64 <= case.limit as u64).count();
+    // refused => it did not fit the peer's limit (or the peer has the extension off)
+    if out.shared.handshake_ms.is_some() && out.finished {
+        for (i, (from_client, size)) in case.spec.datagrams.iter().enumerate() {
+            let l = peer_limit(*from_client);
+            let fits = l != 0 && 1 + (*size).max(8) as u64 <= l as u64;
+            if fits && !s.dgram_accepted.iter().any(|(c, id, _)| c == from_client && *id == i as u64) {
+                rep.violation(
+                    "C19.l2.send.refused-although-fits".to_string(),
+                    format!("datagram {i} of {} bytes from the {} was not accepted although the peer's max_datagram_frame_size is {l} (own: {}); send errors: {:?}", (*size).max(8), if *from_client { "client" } else { "server" }, peer_limit(!*from_client), s.dgram_send_err.iter().take(3).collect::<Vec<_>>()),
+                    rj.clone(),
+                );
+            } else if fits {
+                rep.count("fitting_datagrams_accepted");
+            }
+        }
+    }
+    let n_spec_fit = case.spec.datagrams.iter().filter(|(c, size)| peer_limit(*c) != 0 && 1 + (*size).max(8) as u64 <= peer_limit(*c) as u64).count();
     rep.add("datagrams_that_fit_the_limit", n_spec_fit as u64);
     rep.add("datagram_sends_refused", s.dgram_send_err.len() as u64);
     let rcvd = s.dgram_rcvd_client.len() + s.dgram_rcvd_server.len();
